@@ -139,6 +139,7 @@ class Parser:
         self.messages = []
         self.enums = []
         self.oneofs = []
+        self.aliases = []
 
     def skip_block(self):
         """self.i is at a line containing the opening `{`; skip to the matching `}`"""
@@ -218,6 +219,40 @@ class Parser:
                 else:
                     self.i -= 1
                     self.skip_block()
+                pending_attrs = []
+                continue
+            # re-exports and type aliases make a name of this module stand for a type defined elsewhere: recorded, and
+            # resolved in `build_schema` (the alias gets the target's fields; its protobuf package stays this file's)
+            if s.startswith("pub use ") or s.startswith("pub type "):
+                text = s
+                while not text.rstrip().endswith(";"):
+                    self.i += 1
+                    text += " " + self.lines[self.i].strip()
+                self.i += 1
+                text = text.rstrip(";").strip()
+                mt = re.match(r"pub type (\w+)\s*=\s*(.+)$", text)
+                if mt:
+                    self.aliases.append({"module": module, "name": mt.group(1), "target": resolve(re.sub(r"\s+", "", mt.group(2)), module),
+                                         "origin": self.origin})
+                else:
+                    body = text[len("pub use "):].strip()
+                    mg = re.match(r"(.*)::\{(.*)\}$", body, re.S)
+                    items = []
+                    if mg:
+                        for it in mg.group(2).split(","):
+                            it = it.strip()
+                            if it:
+                                items.append(mg.group(1) + "::" + it)
+                    else:
+                        items.append(body)
+                    for it in items:
+                        ma = re.match(r"(.*?)(?:\s+as\s+(\w+))?$", it.strip())
+                        path = re.sub(r"\s+", "", ma.group(1))
+                        if path.endswith("::*") or path.split("::")[-1] in ("self",):
+                            self.aliases.append({"module": module, "name": "*", "target": resolve(path[:-3], module), "origin": self.origin})
+                            continue
+                        nm = ma.group(2) or path.split("::")[-1]
+                        self.aliases.append({"module": module, "name": nm, "target": resolve(path, module), "origin": self.origin})
                 pending_attrs = []
                 continue
             if re.match(r"(pub )?(impl|fn|use|const|static|type|trait)\b", s) or s.startswith("impl"):
@@ -346,6 +381,25 @@ def build_schema(parsed_files):
             fields.sort(key=lambda x: x["tag"])
             msgs[key] = {"rust_path": key, "fqn": ".".join(m["module"] + [m["name"]]), "name": m["name"],
                          "module": m["module"], "fields": fields, "origin": m["origin"], "type_url": m.get("type_url")}
+    # aliases (`pub use a::b::T;`, `pub type T = a::b::T;`): the name in this module is a message with the target's
+    # fields -- which is what prost encodes and decodes for it
+    for _ in range(3):          # chains of aliases
+        for p in parsed_files:
+            for a in getattr(p, "aliases", []):
+                tkey = path_key(a["target"])
+                if a["name"] == "*":
+                    for k2, m2 in list(msgs.items()):
+                        if m2["module"] == a["target"]:
+                            nk = path_key(a["module"] + [m2["name"]])
+                            if nk not in msgs:
+                                msgs[nk] = dict(m2, rust_path=nk, fqn=".".join(a["module"] + [m2["name"]]), module=a["module"],
+                                                origin=a["origin"], alias_of=k2)
+                    continue
+                key = path_key(a["module"] + [a["name"]])
+                if tkey in msgs and key not in msgs:
+                    m2 = msgs[tkey]
+                    msgs[key] = dict(m2, rust_path=key, fqn=".".join(a["module"] + [a["name"]]), name=a["name"], module=a["module"],
+                                     origin=a["origin"], alias_of=tkey)
     return {"messages": msgs, "enums": {k: {"values": v["values"]} for k, v in enums.items()}}
 
 
